@@ -29,7 +29,8 @@ MIN_NONTRIVIAL_FRACTION = 0.5
 MAX_S = {"quick": 900, "thorough": 7200}
 
 KINDS_WINDOW = ["contract", "take_contract", "storage", "block_storage", "transport", "ext_transport", "multicommodity",
-                "plant", "chp", "scaled", "structured", "coarse_contract", "coarse_storage", "coarse_transport"]
+                "plant", "chp", "scaled", "structured", "coarse_contract", "coarse_storage", "coarse_transport",
+                "scaled_base_only", "scaled_storage", "structured_inner"]
 KINDS_OTHER = ["order", "min_take", "max_take", "min_take2", "max_take2"]   # ...2: plus a second period of the same kind inside the horizon (may overlap)
 
 
@@ -83,6 +84,16 @@ def element(g, kind, s, e):
     if kind == "scaled":
         return dict(type="ScaledAsset", name="el", min_scale=0.0, max_scale=2.0, norm_scale=1.0, fix_costs=S.r(0.05, g),
                     base_asset=dict(type="SimpleContract", name="elb", nodes=["n1"], price="ec", min_cap=0.0, max_cap=S.r(2.0, g), **w), **w)
+    if kind == "scaled_base_only":   # only the base asset carries the life time
+        return dict(type="ScaledAsset", name="el", min_scale=0.0, max_scale=2.0, norm_scale=1.0, fix_costs=0.0,
+                    base_asset=dict(type="SimpleContract", name="elb", nodes=["n1"], price="ec", min_cap=0.0, max_cap=S.r(2.0, g), **w))
+    if kind == "scaled_storage":
+        return dict(type="ScaledAsset", name="el", min_scale=0.0, max_scale=2.0, norm_scale=2.0, fix_costs=S.r(0.01, g),
+                    base_asset=dict(type="Storage", name="elb", nodes=["n1"], size=6.0, cap_in=S.r(1.0, g), cap_out=S.r(1.0, g), eff_in=0.9, **w), **w)
+    if kind == "structured_inner":   # the life time is given to the inner assets, not to the structured asset
+        inner = [dict(type="SimpleContract", name="isup", nodes=["ni"], price="ec", min_cap=0.0, max_cap=S.r(2.0, g), **w),
+                 dict(type="Transport", name="itr", nodes=["ni", "n1"], min_cap=0.0, max_cap=S.r(2.0, g), **w)]
+        return dict(type="StructuredAsset", name="el", nodes=["n1"], portfolio=inner)
     if kind == "structured":
         inner = [dict(type="SimpleContract", name="isup", nodes=["ni"], price="ec", min_cap=0.0, max_cap=S.r(2.0, g)),
                  dict(type="Transport", name="itr", nodes=["ni", "n1"], min_cap=0.0, max_cap=S.r(2.0, g))]
